@@ -116,7 +116,8 @@ def instances(tier):
     out.append({'func': 'h_cache', 'params': {'n': [2, 3], 'rho': 1, 'r0': 1, 'dr': [0, 0], 'nswp': 2, 'with_vld': True}, 'opts': G})
     # rank growth by two per sweep on an almost square unfolding (dr_min larger than the free rows)
     out.append({'func': 'h_exact', 'params': {'n': [3, 3], 'rho': 2, 'r0': 2, 'dr': [2, 2], 'nswp': 1, 'choices': 'first'}, 'opts': G})
-    out.append({'func': 'h_exact', 'params': {'n': [3, 2, 3], 'rho': 2, 'r0': 2, 'dr': [2, 3], 'nswp': 1, 'choices': 'first'}, 'opts': G})
+    if not quick:
+        out.append({'func': 'h_exact', 'params': {'n': [3, 2, 3], 'rho': 2, 'r0': 2, 'dr': [2, 3], 'nswp': 1, 'choices': 'first'}, 'opts': G})
     out.append({'func': 'h_info', 'params': {'n': [2, 2], 'rho': 1}, 'opts': G})
     return out
 
